@@ -191,11 +191,12 @@ theorem zip_muxFrame_pay (c : MCfg) (aud : Nat → Bytes) (frs : List (Nat × Li
 [EOS/EOB] (each with at least one BL NAL and one EL-bound NAL, numbered from 0, adjacent numbers distinct):
 muxing its BL half with its EL half (as demux writes them: UNSPEC63 header stripped) under --no-add-aud gives
 back the original NAL sequence, every NAL with its bytes, and no error. -/
-theorem demux_mux_id (c : MCfg) (aud : Nat → Bytes) (conv : Bytes → Option Bytes) (f0 : DlFrame) (rest : List DlFrame)
+theorem demux_mux_id (c : MCfg) (aud : Nat → Bytes) (conv : Bytes → Option Bytes) (nFrames : Nat) (f0 : DlFrame) (rest : List DlFrame)
     (hna : c.noAddAud = true) (heos : c.eosBeforeEl = false) (hd : c.discard = false) (hcs : c.convSet = false)
     (hdrop : c.drop = false) (h0 : f0.au = 0)
-    (hl : LabelsOk f0.au rest) (hwf : ∀ f ∈ f0 :: rest, f.Wf) :
-    ∃ out, mux c aud conv (((f0 :: rest).flatMap DlFrame.all).filter isBl)
+    (hl : LabelsOk f0.au rest) (hwf : ∀ f ∈ f0 :: rest, f.Wf)
+    (hfr : ∀ it ∈ (f0 :: rest).flatMap DlFrame.all, it.au < nFrames) :
+    ∃ out, mux c aud conv nFrames (((f0 :: rest).flatMap DlFrame.all).filter isBl)
         ((((f0 :: rest).flatMap DlFrame.all).filter isEl).map unwrapItem) = some (out, false) ∧
       out.map pay = ((f0 :: rest).flatMap DlFrame.all).map payI := by
   have hw0 := hwf f0 (by simp)
@@ -261,7 +262,8 @@ theorem demux_mux_id (c : MCfg) (aud : Nat → Bytes) (conv : Bytes → Option B
       rw [hbody f hf]
       have := (hwf f hf).1
       simp [this]
-    refine ⟨_, mux_aligned c aud conv _ _ els hdrop hels hlen hlast, ?_⟩
+    refine ⟨_, mux_aligned c aud conv nFrames _ _ els hdrop hels hlen
+      (fun it h => hfr it (List.mem_filter.mp h).1) hlast, ?_⟩
     rw [zip_muxFrame_pay, hp, hframes, hruns, List.map_map, List.zip_map']
     rw [List.flatMap_map, List.map_flatMap]
     apply flatMap_congr'
